@@ -5,7 +5,7 @@ exit 0: property held on everything explored (KNOWN-FINDING lines possible)
 exit 1: VIOLATION line(s) printed
 exit 2: infrastructure failure of the machinery itself (a bug to fix, not a finding)
 """
-import sys, os, argparse, importlib, traceback, json
+import subprocess, sys, os, argparse, importlib, traceback, json
 sys.path.insert(0, os.path.dirname(os.path.abspath(__file__)))
 sys.path.insert(0, os.path.join(os.path.dirname(os.path.abspath(__file__)), "checks"))
 import vlib
@@ -31,13 +31,31 @@ def main():
             sys.exit(rc)
         mod.run(ctx)
         rc = vlib.finish(ctx)
+    except vlib.ImplCrash as e:
+        # the library raised where the harness only observes it: a behaviour change, not an infrastructure problem
+        ctx.obligations.append(("the implementation runners ran to the end", False, str(e)[-300:]))
+        vlib.violation(ctx, {"kind": "proof-or-correspondence",
+                             "no_longer_checks": ["the implementation runner was brought down by an exception raised inside the library: " + str(e)[-3000:]],
+                             "searched": "the run stopped at the crash; no minimised input"}, no_input=True)
+        sys.exit(vlib.finish(ctx))
     except vlib.InfraError as e:
         print(f"[{a.pid}] INFRASTRUCTURE ERROR: {e}", file=sys.stderr)
         sys.exit(2)
-    except Exception:
+    except (OSError, MemoryError, subprocess.TimeoutExpired):
         traceback.print_exc()
-        print(f"[{a.pid}] INFRASTRUCTURE ERROR (unhandled exception in the check)", file=sys.stderr)
+        print(f"[{a.pid}] INFRASTRUCTURE ERROR (resources)", file=sys.stderr)
         sys.exit(2)
+    except Exception:
+        # the harness could not digest what the implementation returned (unexpected shapes, missing fields, ...): on the
+        # unchanged tree this does not happen, so the correspondence can no longer be evaluated on this tree and the
+        # property is no longer shown to hold; reported without a minimised input
+        tb = traceback.format_exc()
+        traceback.print_exc()
+        ctx.obligations.append(("the correspondence harness ran to the end", False, tb[-300:]))
+        vlib.violation(ctx, {"kind": "proof-or-correspondence",
+                             "no_longer_checks": ["the correspondence harness could not complete on this tree: " + tb[-3000:]],
+                             "searched": "the run stopped at the exception; no minimised input"}, no_input=True)
+        sys.exit(vlib.finish(ctx))
     sys.exit(rc)
 
 
